@@ -34,6 +34,7 @@ HARNESSES = [
         ("c01_search_tree_us_param", "tree '' -> ['/us' -> [:p], :p]: hit/miss, target node and captured params equal the segment-wise reference for every path"),
         ("c01_search_tree_compressed", "compressed tree '/a/b' -> ['/z' -> [:id], '/y']: hit/miss, target and params per segment-wise reference"),
         ("c01_search_tree_two_params", "tree '' -> [:a -> ['/x', :b]]: static preferred at each position, both params are the segments at their positions"),
+        ("c01_search_tree_prefix_siblings", "tree '' -> ['/a.b', '/a' -> ['/c'], :p]: static siblings sharing a byte prefix (separator characters sorting below '/'): every path reaches the segment-wise matching route"),
     ]
 ]
 def stub_fmt_note():
